@@ -69,8 +69,7 @@ def _flag_false(g, n, flag):
     return False
 
 
-def rule_r2(ctx):
-    rid = "C11.R2"
+def rule_r2(ctx, rid="C11.R2"):
     ctx.r.rule(rid, "received(): both close flags are tested inside the requests_lock region and the test dominates every parse call, queue append and dispatch")
     p = ctx.p
     cg = get_callgraph(p)
@@ -143,8 +142,7 @@ def rule_r3(ctx, rid="C11.R3"):
         ctx.r.violation(rid, key_of(hw, None, "no-teardown-after-mark"), "handle_write can return with will_close set without tearing down", hw.loc())
 
 
-def rule_r4(ctx):
-    rid = "C11.R4"
+def rule_r4(ctx, rid="C11.R4"):
     ctx.r.rule(rid, "readable() is false under each of: will_close, close_when_flushed, queue longer than the lookahead, pending output")
     p = ctx.p
     f = p.func("channel.HTTPChannel.readable")
